@@ -110,6 +110,7 @@ pub fn gen_session(rng: &mut Rng, o: &SessionOpts) -> Scenario {
             sc.line("ucinewgame");
         }
         let terminal_game = o.terminal && rng.chance(1, 3);
+        let mut shuffle_game = false;
         let (start, moves) = if terminal_game {
             if rng.chance(1, 2) {
                 (Pos::from_fen(*rng.pick(TERMINAL_FENS)).unwrap(), vec![])
@@ -119,6 +120,11 @@ pub fn gen_session(rng: &mut Rng, o: &SessionOpts) -> Scenario {
                     None => (Pos::from_fen(*rng.pick(TERMINAL_FENS)).unwrap(), vec![]),
                 }
             }
+        } else if rng.chance(1, 20) {
+            // closed shuffle: the search runs through all its iterations and ENDS before the
+            // deadline (the search thread is gone while the I/O thread still waits)
+            shuffle_game = true;
+            (crate::endgames::closed_shuffle_root(rng), vec![])
         } else if rng.chance(1, 8) && !workload::forced_move_pool().is_empty() {
             // exactly one legal move: the shortcut every engine is tempted to take
             if rng.chance(1, 3) && !workload::forced_special_pool().is_empty() {
@@ -150,7 +156,7 @@ pub fn gen_session(rng: &mut Rng, o: &SessionOpts) -> Scenario {
         let mut white = p.white_to_move;
         for _ in 0..gos {
             // longer plans where the box is slow enough that a slice holds few nodes
-            let max_plan = if sc.c_node_ns >= 100_000 { 400 } else if sc.c_node_ns >= 25_000 { 150 } else { 50 };
+            let max_plan = if sc.c_node_ns >= 100_000 || shuffle_game { 400 } else if sc.c_node_ns >= 25_000 { 150 } else { 50 };
             let text = sa::gen_go_max(rng, o.timed, white, max_plan);
             if pipelined {
                 sc.line_nowait(&text);
@@ -164,11 +170,24 @@ pub fn gen_session(rng: &mut Rng, o: &SessionOpts) -> Scenario {
             }
         }
     }
-    sc.line("isready");
-    if rng.chance(2, 3) {
-        sc.line("quit");
-    } else {
+    if o.faulty && o.timed && rng.chance(1, 8) {
+        // the GUI goes away while the engine thinks: one more timed go, end of input right
+        // behind it. The go is still owed its bestmove; the process ends afterwards.
+        let g = workload::gen_game(rng, 12);
+        let p = g.final_pos();
+        sc.line(&sa::position_line(&g.start, &g.moves, rng));
+        let plan = rng.range(3, 40);
+        let (my, other) = if p.white_to_move { ("w", "b") } else { ("b", "w") };
+        sc.line_nowait(&format!("go {}time {} {}time 5000 movestogo 1", my, 100 + (plan * 10 + 7) / 8, other));
         sc.steps.push(Step::Close);
+        n_go += 1;
+    } else {
+        sc.line("isready");
+        if rng.chance(2, 3) {
+            sc.line("quit");
+        } else {
+            sc.steps.push(Step::Close);
+        }
     }
     if o.faulty {
         // swarm: a random subset of fault kinds per run
@@ -272,6 +291,13 @@ pub fn judge_session(sc: &Scenario, res: &SimResult, tr: &Trace, j: Judge, acc: 
                     continue;
                 }
                 let bm = bms[0];
+                if let Some(tid) = c.search_tid {
+                    if tr.thread_ends.iter().any(|(t, k, at)| *t == tid && matches!(k, EndKind::Return) && *at + 3 * MS < bm.t) && c.sends.len() >= 3 && plan_ms.unwrap_or(0) >= 5 {
+                        // the search ran through all its iterations (or settled a mate) and was
+                        // gone while the I/O thread still waited for the deadline
+                        acc.count("probe_search_thread_returned_well_before_the_bestmove");
+                    }
+                }
                 if j.c18 {
                     let lines: Vec<String> = c.outs.iter().filter(|o| o.line.starts_with("info")).map(|o| o.line.clone()).collect();
                     if !lines.is_empty() {
@@ -417,6 +443,72 @@ pub fn judge_session(sc: &Scenario, res: &SimResult, tr: &Trace, j: Judge, acc: 
     }
 }
 
+/// Marathon: one `position`, then hundreds of `go` commands without another one (the engine
+/// plays both sides from its own answers), mostly zero or tiny slices. What only goes wrong at
+/// the 300th or 1100th `go` of a session - counters that nothing resets, threads and channel
+/// contents that pile up - is out of reach of sessions of a dozen commands.
+pub fn gen_marathon(rng: &mut Rng, run: u64) -> Scenario {
+    let mut sc = Scenario::new();
+    sa::gen_knobs(rng, &mut sc, false);
+    sc.c_node_ns = *rng.pick(&[200u64, 1_000, 5_000]);
+    sc.gui_latency_ns = *rng.pick(&[1_000u64, 50_000]);
+    sc.line("uci");
+    if rng.chance(1, 2) {
+        sc.line("ucinewgame");
+    }
+    // closed shuffles never end; other starts end in mate, stalemate or a long draw dance
+    let start = if run < 2 || rng.chance(3, 4) { crate::endgames::closed_shuffle_root(rng) } else { workload::gen_position(rng) };
+    sc.line(&sa::position_line(&start, &[], rng));
+    // the first two marathons of a batch are the long ones: a counter of 8 bits that nothing
+    // resets overflows at the 256th visit of a position, i.e. after 1024 go commands when the
+    // engine's own answers cycle through four positions, after 2048 when through eight
+    let n = match run {
+        0 => 1_100 + rng.below(200),
+        1 => 2_100 + rng.below(200),
+        _ => 150 + rng.below(700),
+    };
+    let zero_only = run == 0;
+    let mut white = start.white_to_move;
+    for i in 0..n {
+        let (my, other) = if white { ("w", "b") } else { ("b", "w") };
+        let text = match if zero_only { rng.below(5) } else { rng.below(8) } {
+            0 => "go".to_string(),
+            1 => format!("go {}time 0 {}time 0", my, other),
+            2 => format!("go {}time -5 {}time 100", my, other),
+            3 | 4 => format!("go {}time {} {}time 50", my, rng.range(0, 100), other),
+            5 => format!("go {}time {} {}time 1000 movestogo 1", my, rng.range(101, 104), other),
+            6 => format!("go {}time {} {}time 1000", my, rng.range(101, 160), other),
+            _ => format!("go wtime 0 btime 0 winc 0 binc 0 movestogo {}", rng.range(1, 40)),
+        };
+        sc.line(&text);
+        white = !white;
+        if i % 97 == 96 || rng.chance(1, 60) {
+            sc.line("isready");
+        }
+    }
+    sc.line("isready");
+    sc.line("quit");
+    sc
+}
+
+pub fn run_marathon(seed: u64, run: u64, tag: &str, j: Judge) -> Acc {
+    let mut rng = Rng::new(crate::rng::mix(seed, tag, run));
+    let mut acc = Acc::new();
+    let sc = gen_marathon(&mut rng, run);
+    let res = sa::run(&sc);
+    let tr = sa::extract(&res);
+    acc.virtual_ns += res.virtual_ns;
+    acc.count(&format!("sim_end:{}", end_name(&res.end)));
+    acc.count("marathon_sessions");
+    let gos = tr.cmds.iter().filter(|c| c.toks.first().map(|t| t == "go").unwrap_or(false)).count() as u64;
+    acc.max("longest_run_of_consecutive_go_commands", gos);
+    if gos >= 1_100 {
+        acc.count("probe_session_with_1100_or_more_consecutive_go");
+    }
+    judge_session(&sc, &res, &tr, j, &mut acc, run);
+    acc
+}
+
 pub fn run_one(seed: u64, run: u64, tag: &str, j: Judge, faulty: bool) -> Acc {
     let mut rng = Rng::new(crate::rng::mix(seed, tag, run));
     let mut acc = Acc::new();
@@ -509,16 +601,31 @@ pub fn minimise(v: &Violation, j: Judge) -> Violation {
             out = x;
         }
     }
-    // 3. drop whole steps (never the handshake), last to first
-    let mut i = best.steps.len();
-    while i > 1 {
-        i -= 1;
-        let mut t = best.clone();
-        t.steps.remove(i);
-        if let Some(x) = still(&t) {
-            best = t;
-            out = x;
+    // 3. drop steps (never the handshake), last to first, in chunks of halving size (a
+    //    marathon session has thousands of steps); a wall-clock budget bounds the effort - what
+    //    is kept is always a scenario that was re-executed and still shows the signature
+    let t_start = std::time::Instant::now();
+    let budget = std::time::Duration::from_secs(90);
+    let mut chunk = (best.steps.len() / 2).max(1);
+    'shrink: loop {
+        let mut i = best.steps.len();
+        while i > 1 {
+            if t_start.elapsed() > budget {
+                break 'shrink;
+            }
+            let lo = i.saturating_sub(chunk).max(1);
+            let mut t = best.clone();
+            t.steps.drain(lo..i);
+            if let Some(x) = still(&t) {
+                best = t;
+                out = x;
+            }
+            i = lo;
         }
+        if chunk == 1 {
+            break;
+        }
+        chunk /= 2;
     }
     // 4. shorten move lists of position commands from the front is not legal-preserving;
     //    from the back it is: drop trailing moves while the signature persists
@@ -605,6 +712,106 @@ pub fn determinism(seed: u64, n: u64) -> (u64, u64) {
 
 pub fn run_c10_session(seed: u64, run: u64) -> Acc {
     run_probe_session(seed, run, "C10")
+}
+
+/// C10 (ii) through the real command loop: an earlier game with a timed search (whose thread,
+/// its channel contents and whatever it hands back may still be around), then the position
+/// command of a repetition root - sent right behind the earlier `go`, or after its answer -
+/// and a timed `go`: every completed depth must report a score >= 0. Observed on stdout only.
+pub fn run_c10_draw_session(seed: u64, run: u64) -> Acc {
+    let mut rng = Rng::new(crate::rng::mix(seed, "C10-draw-session", run));
+    let mut acc = Acc::new();
+    let z = crate::zobrist::ZobristHasher::create_zobrist_hasher();
+    let want = *rng.pick(&[2u32, 2, 3]);
+    let game = match crate::sb_checks::gen_repetition_root(&mut rng, want, &z) {
+        Some(g) => g,
+        None => return acc,
+    };
+    let mut sc = Scenario::new();
+    sa::gen_knobs(&mut rng, &mut sc, false);
+    sc.c_node_ns = *rng.pick(&[200u64, 1_000, 2_500]);
+    sc.gui_latency_ns = *rng.pick(&[1_000u64, 50_000, MS]);
+    sc.line("uci");
+    let earlier = rng.below(3);
+    let pipelined = rng.chance(1, 2);
+    for _ in 0..earlier {
+        let og = workload::gen_game(&mut rng, 16);
+        let p = og.final_pos();
+        if p.is_terminal() {
+            continue;
+        }
+        sc.line(&sa::position_line(&og.start, &og.moves, &mut rng));
+        let text = sa::gen_go_max(&mut rng, true, p.white_to_move, 40);
+        if pipelined {
+            sc.line_nowait(&text);
+        } else {
+            sc.line(&text);
+        }
+    }
+    sc.line(&sa::position_line(&game.start, &game.moves, &mut rng));
+    if pipelined && earlier > 0 {
+        // let the earlier answers come out before the probed go is sent
+        sc.line("isready");
+    }
+    let root = game.final_pos();
+    let (my, other) = if root.white_to_move { ("w", "b") } else { ("b", "w") };
+    // plan of 20..60 ms with movestogo 1: clock = 100 + plan / 0.8
+    let plan = rng.range(20, 60);
+    sc.line(&format!("go {}time {} {}time 60000 movestogo 1", my, 100 + (plan * 10 + 7) / 8, other));
+    sc.line("isready");
+    sc.line("quit");
+    if earlier > 0 && rng.chance(2, 3) {
+        // delays in the earlier searches' threads: late sends, late hand-backs
+        let enabled = [true, false, true, false, true];
+        sa::gen_timing_faults(&mut rng, &mut sc, earlier as usize, &enabled);
+    }
+    let mut scj = sc.to_json();
+    scj["check"] = json!("C10-draw");
+    scj["want"] = json!(want);
+    judge_c10_draw_session(&sc, &scj, want, &mut acc, run);
+    acc
+}
+
+pub fn judge_c10_draw_session(sc: &Scenario, scj: &serde_json::Value, want: u32, acc: &mut Acc, run: u64) {
+    let res = sa::run(sc);
+    acc.virtual_ns += res.virtual_ns;
+    acc.evals += 1;
+    acc.count("c10_draw_sessions");
+    // the lines between the last go and its bestmove, in stdout order
+    let outs: Vec<&str> = res.out.iter().map(|(_, _, l)| l.as_str()).collect();
+    let last_bm = match outs.iter().rposition(|l| l.starts_with("bestmove")) {
+        Some(i) => i,
+        None => return,
+    };
+    let from = outs[..last_bm].iter().rposition(|l| l.starts_with("bestmove") || *l == "readyok" || *l == "uciok").map(|i| i + 1).unwrap_or(0);
+    let lines: Vec<&str> = outs[from..last_bm].iter().copied().filter(|l| l.starts_with("info")).collect();
+    let depth_of = |l: &str| crate::verif_seam::info_depth(l);
+    let maxd = lines.iter().filter_map(|l| depth_of(l)).max().unwrap_or(0);
+    if maxd >= 2 {
+        acc.count("c10_draw_sessions_with_a_completed_depth");
+        acc.nontrivial.insert(fnv(run, sc.to_json().to_string().as_bytes()));
+    }
+    for d in 1..maxd {
+        // depth d is completed: a line of a larger depth follows
+        if let Some(l) = lines.iter().filter(|l| depth_of(l) == Some(d)).last() {
+            if let Some(inf) = crate::sb::parse_info_strict(l) {
+                let below = match inf.score {
+                    Ok(cp) => cp < 0,
+                    Err(n) => n < 0,
+                };
+                if below {
+                    acc.violate(Violation {
+                        prop: "C10".into(),
+                        sig: format!("C10/session/draw-not-taken/count-{}", if want >= 3 { "3+" } else { "2" }),
+                        detail: format!("the mover can repeat a position that already occurred {} times but depth {} of the session's last search reports {:?}: {}", want, d, inf.score, l),
+                        scenario: scj.clone(),
+                        run,
+                    });
+                    return;
+                }
+            }
+        }
+    }
 }
 
 /// sessions of several `position` commands (and zero-slice `go`s) through the real command
@@ -707,6 +914,12 @@ pub fn run_probe_session(seed: u64, run: u64, prop: &str) -> Acc {
 /// re-execute a probe-session scenario (replay): the games are read back from the script
 pub fn replay_probe_session(scv: &serde_json::Value, prop: &str) -> Acc {
     let mut acc = Acc::new();
+    if scv["check"].as_str() == Some("C10-draw") {
+        if let Some(sc) = Scenario::from_json(scv) {
+            judge_c10_draw_session(&sc, scv, scv["want"].as_u64().unwrap_or(2) as u32, &mut acc, 0);
+        }
+        return acc;
+    }
     let sc = match Scenario::from_json(scv) {
         Some(s) => s,
         None => return acc,
